@@ -72,9 +72,9 @@ type caseData struct {
 }
 
 func genCases(seed int64, tier string) []core.Case {
-	n := 96
+	n := 480
 	if tier == "thorough" {
-		n = 3000
+		n = 9000
 	}
 	rng := rand.New(rand.NewSource(seed*104729 + 2))
 	var out []core.Case
@@ -300,7 +300,13 @@ func judgeApply(res *core.Result, o *gen.StepObs, detail func() string, verbose 
 		res.Stat("manifest_objects_compared", 1)
 		diffs := ref.Subsumes(live, d.Obj, d.Res)
 		if len(diffs) > 0 {
-			res.Add("manifest-field-mismatch", fmt.Sprintf("%s · %s · %s", opClass(op), kindClass(d), cause), "%s after revision %d: %s | %s", d, top.Revision, strings.Join(diffs, "; "), detail())
+			class := fmt.Sprintf("%s · %s · %s", opClass(op), kindClass(d), cause)
+			if op.Kind == "rollback" && last != "deployed" && !d.Typed() {
+				// same cause as the stale-resource finding: Rollback computes the (two-way, for custom
+				// kinds) patch against Releases.Last although the live object matches the deployed revision
+				class = "rollback while the latest revision is not the deployed one · custom kind"
+			}
+			res.Add("manifest-field-mismatch", class, "%s after revision %d: %s | %s", d, top.Revision, strings.Join(diffs, "; "), detail())
 		} else if len(o.Drifted[d.Key]) > 0 {
 			for _, k := range o.Drifted[d.Key] {
 				if k == "field" || k == "field-remove" || k == "delete" || k == "keep-remove" {
@@ -338,7 +344,12 @@ func judgeApply(res *core.Result, o *gen.StepObs, detail func() string, verbose 
 			} else {
 				staleGone++
 				if present {
-					res.Add("stale-resource-not-deleted", fmt.Sprintf("%s · %s · %s", opClass(op), kindClass(d), cause), "%s is in the manifest of deployed revision %d, not in new revision %d, its live object has no keep policy (annotation %q), and it still exists | %s", d, pd.Revision, top.Revision, pol, detail())
+					class := fmt.Sprintf("%s · %s · %s", opClass(op), kindClass(d), cause)
+					if op.Kind == "rollback" && last != "deployed" {
+						// one cause: Rollback diffs against Releases.Last, not against the deployed revision
+						class = "rollback while the latest revision is not the deployed one"
+					}
+					res.Add("stale-resource-not-deleted", class, "%s is in the manifest of deployed revision %d, not in new revision %d, its live object has no keep policy (annotation %q), and it still exists | %s", d, pd.Revision, top.Revision, pol, detail())
 				}
 			}
 		}
